@@ -80,3 +80,9 @@ pub fn replay_stdin<F: FnMut(Value)>(f: F) {
     let stdin = std::io::stdin();
     tlc_vectors(stdin.lock(), f, |l| println!("TLC| {}", l));
 }
+
+/// `asca::verif::record` for closures that borrow library values: whether those values are unwind-safe is none of the harness's business
+/// (a change of a library type - say a cache cell inside `Rule` - must not stop the harness from compiling)
+pub fn rec<T, F: FnOnce() -> T>(budget: u64, events: bool, ticks: bool, f: F) -> asca::verif::Recorded<T> {
+    asca::verif::record(budget, events, ticks, std::panic::AssertUnwindSafe(f))
+}
